@@ -7,6 +7,8 @@ AS_H = 'src/tbb/arena_slot.h'
 TD_CPP = 'src/tbb/task_dispatcher.cpp'
 PF_H = 'include/oneapi/tbb/parallel_for.h'
 MB_H = 'src/tbb/mailbox.h'
+CPQ_H = 'include/oneapi/tbb/concurrent_priority_queue.h'
+AGG_H = 'include/oneapi/tbb/detail/_aggregator.h'
 CUB_H = 'include/oneapi/tbb/detail/_concurrent_unordered_base.h'
 CSL_H = 'include/oneapi/tbb/detail/_concurrent_skip_list.h'
 CV_H = 'include/oneapi/tbb/concurrent_vector.h'
@@ -475,6 +477,29 @@ MUTANTS = [
         (CSL_H, "                    new_node->set_next(level, next);\n                    __TBB_ASSERT(new_node->height() > level, \"Internal structure break\");", "                    __TBB_ASSERT(new_node->height() > level, \"Internal structure break\");")]),
     dict(name='c12-skiplist-keep-rejected', prop='C12', clause='D3', edits=[
         (CSL_H, "        if (!insert_result.second) {\n            delete_value_node(new_node);\n        }\n        return insert_result;", "        return insert_result;")]),
+    # ---------------------------------------------------------------- C13
+    dict(name='c13-empty-pop-no-status', prop='C13', clause='D2', edits=[
+        (CPQ_H, "            if (data.empty()) {\n                tmp->status.store(uintptr_t(FAILED), std::memory_order_release);\n            } else {", "            if (data.empty()) {\n            } else {")]),
+    dict(name='c13-postponed-pop-dropped', prop='C13', clause='D2', edits=[
+        (CPQ_H, "                } else { // no convenient item to pop; postpone\n                    tmp->next.store(pop_list, std::memory_order_relaxed);\n                    pop_list = tmp;\n                }", "                }")]),
+    dict(name='c13-status-relaxed', prop='C13', clause='D2', edits=[
+        (CPQ_H, "                    my_size.store(my_size.load(std::memory_order_relaxed) + 1, std::memory_order_relaxed);\n                    tmp->status.store(uintptr_t(SUCCEEDED), std::memory_order_release);",
+         "                    my_size.store(my_size.load(std::memory_order_relaxed) + 1, std::memory_order_relaxed);\n                    tmp->status.store(uintptr_t(SUCCEEDED), std::memory_order_relaxed);")]),
+    dict(name='c13-catch-no-status', prop='C13', clause='D2', edits=[
+        (CPQ_H, "                catch(...) {\n                    tmp->status.store(uintptr_t(FAILED), std::memory_order_release);\n                }", "                catch(...) {\n                }")]),
+    dict(name='c13-push-outside-try', prop='C13', clause='D3', edits=[
+        (CPQ_H, "#if TBB_USE_EXCEPTIONS\n                try\n#endif\n                {\n                    if (tmp->type == PUSH_OP) {\n                        push_back_helper(*(tmp->elem));\n                    } else {",
+         "                if (tmp->type == PUSH_OP) push_back_helper(*(tmp->elem));\n#if TBB_USE_EXCEPTIONS\n                try\n#endif\n                {\n                    if (tmp->type == PUSH_OP) {\n                    } else {")]),
+    dict(name='c13-push-throws-on-any', prop='C13', clause='D3', edits=[
+        (CPQ_H, "        cpq_operation op_data(value, PUSH_OP);\n        my_aggregator.execute(&op_data);\n        if (op_data.status == FAILED)\n            throw_exception(exception_id::bad_alloc);",
+         "        cpq_operation op_data(value, PUSH_OP);\n        my_aggregator.execute(&op_data);\n        if (op_data.status != SUCCEEDED || data.empty())\n            throw_exception(exception_id::bad_alloc);")]),
+    dict(name='c13-no-heapify', prop='C13', clause='D4', edits=[
+        (CPQ_H, "        if (mark < data.size()) heapify();\n        __TBB_ASSERT(mark == data.size(), nullptr);\n        call_itt_notify(releasing, this);", "        __TBB_ASSERT(mark == data.size(), nullptr);\n        call_itt_notify(releasing, this);")]),
+    dict(name='c13-aggregator-push-store', prop='C13', clause='D1', edits=[
+        (AGG_H, "        do {\n            op->next.store(res, std::memory_order_relaxed);\n        } while (!pending_operations.compare_exchange_strong(res, op));",
+         "        op->next.store(res, std::memory_order_relaxed);\n        pending_operations.store(op);")]),
+    dict(name='c13-handler-busy-relaxed', prop='C13', clause='D1', edits=[
+        (AGG_H, "        handler_busy.store(0, std::memory_order_release);", "        handler_busy.store(0, std::memory_order_relaxed);")]),
 ]
 
 BENIGN = [
@@ -515,4 +540,6 @@ BENIGN = [
          "        size_type delta = old_size < new_size ? new_size - old_size : 0;\n        if (delta > 0) {\n            return internal_grow(old_size, new_size, args...);\n        }")]),
     dict(name='c12-b-set_next-seqcst', prop='C12', edits=[
         (CUB_H, "        my_next.store(next_node, std::memory_order_release);", "        my_next.store(next_node);")]),
+    dict(name='c13-b-status-seqcst', prop='C13', edits=[
+        (CPQ_H, "                tmp->status.store(uintptr_t(FAILED), std::memory_order_release);\n            } else {", "                tmp->status.store(uintptr_t(FAILED));\n            } else {")]),
 ]
